@@ -316,3 +316,23 @@ let jnode = function
 
 let jcfg (g : cfg) = jlist jnode g
 let jopt f = function None -> "null" | Some x -> f x
+
+(* ---------- pseudo ops of the compiler passes ---------- *)
+let as_pop (x : sexp) : pop =
+  match x with
+  | L [ Atom "O"; o ] -> POp (as_op o)
+  | L [ Atom "L"; l ] -> PLabel (nat_of_int (as_int l))
+  | L [ Atom "J"; o; l ] -> PJump (as_op o, nat_of_int (as_int l))
+  | _ -> raise (Bad "pop expected")
+
+let as_pops (x : sexp) : pop list list = List.map (fun r -> List.map as_pop (as_list r)) (as_list x)
+
+let jop (o : op) = "{\"off\":" ^ string_of_z o.off ^ ",\"code\":" ^ jname o.code ^ ",\"params\":" ^ jlist jparam o.params ^ "}"
+let jprogram (p : program) = jlist (jlist jop) p
+
+let jpop = function
+  | POp o -> "[\"O\"," ^ jop o ^ "]"
+  | PLabel l -> "[\"L\"," ^ jnat l ^ "]"
+  | PJump (o, l) -> "[\"J\"," ^ jop o ^ "," ^ jnat l ^ "]"
+
+let jpops (rs : pop list list) = jlist (jlist jpop) rs
